@@ -39,7 +39,7 @@ man = {
     "hooks": {
         "guard": "verif",
         "enable": "go build -tags verif (harness module /verif/harness with replace directives onto /repo/{api,types,x/data,x/ecocredit,x/intertx})",
-        "baseline_off_cmd": "for m in . api types x/data x/ecocredit x/intertx; do (cd /repo/$m && GOFLAGS=-mod=mod go test -vet=off -count=1 -timeout 25m ./...) || exit 1; done",
+        "baseline_off_cmd": "for m in . api types x/data x/ecocredit x/intertx; do (cd /repo/$m && GOFLAGS=-mod=mod go test -json -vet=off -count=1 -timeout 25m ./...); done",
         "source_commits": PR.HOOK_COMMITS if hasattr(PR, "HOOK_COMMITS") else [],
         "add_only": True,
     },
